@@ -329,6 +329,37 @@ func (ev *cenv) binary(e *CExpr) *Val {
 
 func (ev *cenv) quant(e *CExpr) *Val {
 	E := ev.E
+	// bounded variables (`s range 3`) are expanded: conjunction / disjunction over 0..n-1
+	for vi, qv := range e.Vars {
+		if qv.Type != nil && qv.Type.Kind == "range" {
+			n := 0
+			fmt.Sscanf(qv.Type.Name, "%d", &n)
+			if n <= 0 || n > 16 {
+				ev.fail("range bound must be 1..16")
+			}
+			rest := append(append([]QVar{}, e.Vars[:vi]...), e.Vars[vi+1:]...)
+			var parts []string
+			for c := 0; c < n; c++ {
+				sub := *ev
+				sub.bound = map[string]*Val{}
+				for k, v := range ev.bound {
+					sub.bound[k] = v
+				}
+				sub.bound[qv.Name] = &Val{T: tMath, S: intLit(int64(c)), Sort: SInt}
+				var r string
+				if len(rest) == 0 {
+					r = sub.evalBool(e.Args[0])
+				} else {
+					r = sub.quant(&CExpr{Op: e.Op, Vars: rest, Pats: e.Pats, Args: e.Args}).S
+				}
+				parts = append(parts, r)
+			}
+			if e.Op == "forall" {
+				return boolVal(and(parts...))
+			}
+			return boolVal(or(parts...))
+		}
+	}
 	nb := map[string]*Val{}
 	for k, v := range ev.bound {
 		nb[k] = v
